@@ -225,7 +225,7 @@ class Database(metaclass=ABCMeta):
                 version, = next(cast("Iterator[tuple[bytes]]", self.execute("SELECT value FROM option "
                                                                           "WHERE key == 'database_version' "
                                                                           "LIMIT 1")))
-            except OperationalError:
+            except (OperationalError, StopIteration):
                 # the "database_version" key was not found
                 version = b"0"
         else:
